@@ -127,6 +127,49 @@ def gen_problem(rng, tier):
                         break
             elif plates:
                 plates.pop(rng.randrange(len(plates)))
+    return _finish(rng, h, w, plates)
+
+
+def _big_tiling(rng, h, w):
+    """A random domino tiling of a larger board without backtracking: parallel dominoes to start with (the last row / column
+    of an odd board is tiled the other way, one cell stays uncovered when both sides are odd), then many random flips of two
+    side-by-side parallel dominoes (2 x 2 block)."""
+    right = [[False] * w for _ in range(h)]
+    down = [[False] * w for _ in range(h)]
+    for y in range(h):
+        for x in range(0, w - 1, 2):
+            right[y][x] = True
+    if w % 2:
+        for y in range(0, h - 1, 2):
+            down[y][w - 1] = True
+    for _ in range(6 * h * w):
+        y, x = rng.randrange(h - 1), rng.randrange(w - 1)
+        if right[y][x] and right[y + 1][x]:
+            right[y][x] = right[y + 1][x] = False
+            down[y][x] = down[y][x + 1] = True
+        elif down[y][x] and down[y][x + 1]:
+            down[y][x] = down[y][x + 1] = False
+            right[y][x] = right[y + 1][x] = True
+    return ([((y, x), (y, x + 1)) for y in range(h) for x in range(w) if right[y][x]]
+            + [((y, x), (y + 1, x)) for y in range(h) for x in range(w) if down[y][x]])
+
+
+def extra_program_problems(rng):
+    """Larger boards for the program correspondence only (nothing is enumerated there): one non-square medium board and two
+    with more than 256 cells (a tall and a wide one); random domino tilings (now and then a few plates removed: READING),
+    a hidden filling and the clue modes of the small boards."""
+    from . import _loop
+    out = []
+    for h, w in _loop.big_shapes(rng):
+        plates = _big_tiling(rng, h, w)
+        if rng.random() < 0.3:
+            for _ in range(rng.randint(1, 3)):
+                plates.pop(rng.randrange(len(plates)))
+        out.append(_finish(rng, h, w, plates, cmode=rng.uniform(0.08, 1.0)))
+    return out
+
+
+def _finish(rng, h, w, plates, cmode=None):
     to_right = [[False] * w for _ in range(h)]
     to_down = [[False] * w for _ in range(h)]
     for (a, b) in plates:
@@ -156,7 +199,8 @@ def gen_problem(rng, tier):
                 opts = [s for s in "+-" if ok((y, x), s)]
                 if opts:
                     state[y][x] = rng.choice(opts)
-    cmode = rng.random()
+    if cmode is None:
+        cmode = rng.random()
     keep = 0.0 if cmode < 0.08 else rng.choice([0.25, 0.5, 0.8, 1.0])
 
     def none():
